@@ -732,3 +732,79 @@ Definition toy_dec (b : bytes) : option state :=
 Definition toy_norm (k : key) : key := k.
 Definition toy_set (v : N) : cmd api := CProc (PApi (SetResult [97] (Some [v]))).
 Definition toy_state (v : N) : state := set_results [([97], Some [v])] init_state.
+
+(* ------------------------------------------------------------------ *)
+(* Part 7: a concrete pickle                                            *)
+(* a self-delimiting serialisation of the model state: shows that the
+   assumption "dec (seal (enc s)) = Some s" on the opaque pickle is satisfiable *)
+
+Record codec (T : Type) := mkCodec { put : T -> bytes; get : bytes -> option (T * bytes) }.
+
+Arguments put {T}. Arguments get {T}. Arguments mkCodec {T}.
+
+Definition codec_ok {T} (c : codec T) : Prop := forall x r, get c (put c x ++ r) = Some (x, r).
+
+Definition cN : codec N :=
+  mkCodec (fun n : N => [n]) (fun b : bytes => match b with [] => None | n :: r => Some (n, r) end).
+
+Definition cBool : codec bool :=
+  mkCodec (fun b : bool => [if b then 1 else 0]) (fun b : bytes => match b with [] => None | n :: r => Some (negb (n =? 0), r) end).
+
+Definition cPair {A B} (a : codec A) (b : codec B) : codec (A * B) :=
+  mkCodec (fun p : A * B => put a (fst p) ++ put b (snd p))
+          (fun s : bytes => match get a s with
+                    | Some (x, r) => match get b r with Some (y, r') => Some ((x, y), r') | None => None end
+                    | None => None
+                    end).
+
+Definition cOpt {A} (a : codec A) : codec (option A) :=
+  mkCodec (fun o : option A => match o with None => [0] | Some x => 1 :: put a x end)
+          (fun s : bytes => match s with
+                    | [] => None
+                    | n :: r => if n =? 0 then Some (None, r)
+                                else match get a r with Some (x, r') => Some (Some x, r') | None => None end
+                    end).
+
+Fixpoint get_n {A} (a : codec A) (k : nat) (s : bytes) : option (list A * bytes) :=
+  match k with
+  | O => Some ([], s)
+  | S k' => match get a s with
+            | Some (x, r) => match get_n a k' r with Some (l, r') => Some (x :: l, r') | None => None end
+            | None => None
+            end
+  end.
+
+Definition cList {A} (a : codec A) : codec (list A) :=
+  mkCodec (fun l : list A => N.of_nat (length l) :: flat_map (put a) l)
+          (fun s : bytes => match s with [] => None | n :: r => get_n a (N.to_nat n) r end).
+
+Definition cMap {T U} (f : T -> U) (g : U -> T) (c : codec U) : codec T :=
+  mkCodec (fun x : T => put c (f x))
+          (fun s : bytes => match get c s with Some (u, r) => Some (g u, r) | None => None end).
+
+Definition cKey : codec key := cList cN.
+
+Definition cVal : codec pyval := cOpt (cList cN).
+
+Definition cAmap {V} (v : codec V) : codec (amap V) := cList (cPair cKey v).
+
+Definition cJenk : codec jenk :=
+  cMap (fun j => (j_config j, j_jobs j, j_cnt j, j_dirs j))
+       (fun t => match t with (a, b, c, d) => mkJenk a b c d end)
+       (cPair (cPair (cPair cVal (cAmap cVal)) (cAmap cN)) (cAmap (cPair cKey cN))).
+
+Definition cState : codec state :=
+  cMap (fun s => (s_cnt s, s_dirs s, s_results s, s_inputs s, s_jenkins s, s_dirStates s, s_layers s,
+                  s_build s, s_variants s, s_attic s, s_storage s))
+       (fun t => match t with (a, b, c, d, e, f, g, h, i, j, k) => mkState a b c d e f g h i j k end)
+       (cPair (cPair (cPair (cPair (cPair (cPair (cPair (cPair (cPair (cPair
+          (cAmap cN) (cAmap (cPair (cPair cKey cN) cBool))) (cAmap cVal)) (cAmap cVal)) (cAmap cJenk))
+          (cAmap cVal)) (cAmap cVal)) cVal) (cAmap cVal)) (cAmap cVal)) (cAmap (cList cN))).
+
+Definition ser_enc (s : state) : bytes := put cState s.
+
+Definition ser_dec (b : bytes) : option state := match get cState b with Some (s, _) => Some s | None => None end.
+
+(* sum of the bytes (Adler-32 low half = (1 + bsum d) mod 65521) *)
+Fixpoint bsum (d : bytes) : N := match d with [] => 0 | x :: r => x + bsum r end.
+
